@@ -1226,7 +1226,9 @@ def color_inherit(prog: Program) -> RuleResult:
     for idx, call in enumerate(sites):
         construct = f"{LAYOUT}:_compute_branches/colour-propagation#{idx}"
         loops = [l for l in loops_around(fn, call) if isinstance(l, ast.For)]
-        outer = next((l for l in loops if isinstance(l.iter, ast.Call) and isinstance(l.iter.func, ast.Attribute) and l.iter.func.attr == "traverse"), None)
+        trav = [l for l in loops if isinstance(l.iter, ast.Call) and isinstance(l.iter.func, ast.Attribute) and l.iter.func.attr == "traverse"]
+        # the traversal whose variable is the node being painted (the innermost one when several are nested)
+        outer = next((l for l in reversed(trav) if dotted(l.target) == dotted(call.func.value)), trav[0] if trav else None)
         if outer is None:
             raise AnalysisError(f"{construct}: enclosing tree traversal not found")
         strat = kwarg(outer.iter, "strategy", 0)
@@ -1338,6 +1340,19 @@ def placed_in_species(prog: Program) -> RuleResult:
         res.ok(construct, f"`{short(first.test)}` -> continue, first statement of the gene loop")
     else:
         res.fail(construct, f"the gene loop does not start by skipping the genes that are not mapped to `{sp}`: a node can be placed in a species it is not mapped to (or in several)", mod, gene_loop)
+    # the state of the species is registered BEFORE its genes are handled: a duplication or transfer of this very
+    # species puts loss nodes into layout_state[<species>] while it is being scanned
+    construct = f"{LAYOUT}:_compute_branches/state-registered-first"
+    reg = [i for i, st in enumerate(sp_loop.body) if isinstance(st, ast.Assign) and isinstance(st.targets[0], ast.Subscript) and dotted(st.targets[0].slice) == sp and not isinstance(st.targets[0].value, ast.Subscript)]
+    gl = next((i for i, st in enumerate(sp_loop.body) if st is gene_loop or any(x is gene_loop for x in ast.walk(st))), None)
+    if gl is None:
+        raise AnalysisError("_compute_branches: gene loop not found in the species loop")
+    if not reg:
+        res.fail(construct, f"the state of `{sp}` is not registered in the layout state inside the species loop: loss nodes that an event of `{sp}` creates in its own species find no state to go to", mod, sp_loop)
+    elif min(reg) < gl:
+        res.ok(construct, f"`{short(sp_loop.body[min(reg)], 50)}` precedes the gene loop")
+    else:
+        res.fail(construct, f"`{short(sp_loop.body[min(reg)], 50)}` comes after the gene loop: loss nodes that an event of `{sp}` creates in its own species find no state to go to (KeyError)", mod, sp_loop.body[min(reg)])
     # every species runs the gene loop: nothing in the species loop skips or ends it before the genes were looked at
     construct = f"{LAYOUT}:_compute_branches/every-species"
     skips = []
